@@ -337,7 +337,7 @@ class _Stop(Exception):
     pass
 
 
-def trace(f, body, env, max_items=200, final=None):
+def trace(f, body, env, max_items=200, final=None, on_effect=None):
     """Execute a loop-free statement tree under env (as run_body) and return the list of 'effect' statements met, in order,
     as (kind, node): kind in call / assign / break / return / throw / other.  Conditions are evaluated with ev(); integer
     locals declared on the way join the environment.  Stops at the first break / return / throw."""
@@ -404,6 +404,8 @@ def trace(f, body, env, max_items=200, final=None):
             raise _Stop()
         elif k in ("CallExpr", "CXXMemberCallExpr", "CXXOperatorCallExpr", "ExprWithCleanups"):
             out.append(("call", s))
+            if on_effect is not None:
+                on_effect("call", s, st)        # lets the caller update the state it serves through __termfn2__
         elif k in ("BinaryOperator", "CompoundAssignOperator", "UnaryOperator"):
             lhs = strip(s["c"][0]) if s.get("c") else None
             if k == "BinaryOperator" and s.get("op") == "=" and lhs is not None and lhs["k"] == "DeclRefExpr" and lhs.get("var"):
